@@ -10,9 +10,9 @@ GEN_SECTIONS = ['GenSignature']
 COQ_TARGETS = ['Props/C03.vo']
 LEVEL = 'proof'
 MANIFEST = {
-    'text': "Theorems (Coq, every byte string body that does not contain the section tag, every digest function): the reader's split of a signed file returns exactly (hashed content, 'md5', digest); the bytes in front of the newline preceding [SIGNATURE] are exactly the hashed content; write(create_signature=True) returns the digest it wrote, write(create_signature=False) writes no section. The literal signature block is re-read from write_seq.py on every run. On the implementation every generated file (all four flag combinations) has its MD5 recomputed over the bytes before '\\n[SIGNATURE]' and compared with the Hash line, the return value and signature_value after write and after read; the extracted model re-parses the real files.",
-    'note': "Trusted: Coq kernel; translator pattern for the signature block; hashlib.md5, text-mode newlines and utf-8 encoding are runtime behaviour covered by sampling only; the theorem's hypothesis (body free of '[SIGNATURE]') is checked on every generated file.",
-    'technique': 'Rocq/Coq proof (list/byte-string reasoning over an abstract digest) + byte-level oracle on written files',
+    'text': "Theorems (Coq, every byte string body that does not contain the section tag, every digest function): the reader's split of a signed file returns exactly (hashed content, 'md5', digest); the bytes in front of the newline preceding [SIGNATURE] are exactly the hashed content; write(create_signature=True) returns the digest it wrote, write(create_signature=False) writes no section. The literal signature block is re-read from write_seq.py on every run. On the implementation every generated file (all four flag combinations) has its MD5 recomputed over the bytes before '\\n[SIGNATURE]' and compared with the Hash line, the return value and signature_value after write and after read; the extracted model re-parses the real files and recomputes the digest with its own MD5 (Model/Md5.v: RFC 1321 over byte lists; theorems: RFC test suite, 32 characters 0-9a-f for every content, whole-block padding, write contract with MD5 and no hypothesis on the digest).",
+    'note': "Trusted: Coq kernel; translator pattern for the signature block; MD5 itself is modelled (Model/Md5.v) and compared with the implementation's Hash on every file up to 40 kB (hashlib.md5 is the reference only above that); text-mode newlines and utf-8 encoding are runtime behaviour covered by sampling only; the theorem's hypothesis (body free of '[SIGNATURE]') is checked on every generated file.",
+    'technique': 'Rocq/Coq proof (list/byte-string reasoning over an abstract digest, then instantiated with an executable MD5 model validated on the RFC 1321 suite) + byte-level oracle on written files',
 }
 BUDGET = {'quick': 150, 'thorough': 1500}
 MISMATCH_BUDGET = 0.0
@@ -21,13 +21,14 @@ RULE = ('random timing-valid sequences (1-12 blocks, all event kinds, random sys
         'the Hash line, the return value of write() and signature_value after write and after read; no section and None '
         'without signature; 0-2 follow-up writes with fresh flags on the same object and on the object that read the file; '
         'three files above 1 MiB per run (oracle only). The extracted Coq model re-derives the file from (body, hash) and re-parses the real file '
-        '(body length, type, hash compared). distinct = distinct file contents; non-trivial = signed files')
-TRUSTED = ['hashlib.md5, text-mode newline handling and utf-8 encoding are runtime behaviour (sampled)',
+        '(body length, type, hash compared) and recomputes the digest with the model MD5 for files up to 40 kB. distinct = distinct file contents; non-trivial = signed files')
+TRUSTED = ['hashlib.md5 only for files above 40 kB (below, the digest is recomputed by the extracted Coq MD5); text-mode newline handling and utf-8 encoding are runtime behaviour (sampled)',
            'a digest consisting only of characters float() accepts would be parsed as a number by the reader '
            '(probability ~3e-7 per file; hypothesis `clean h` of the theorem does not exclude it, the oracle would report it)']
 ASSUMPTIONS = ['the body written by write() never contains the text "[SIGNATURE]" (checked on every generated file by the model function no_sub)']
 
 MARK = b'\n[SIGNATURE]\n'
+MD5_MODEL_MAX = 40000      # bytes; the extracted MD5 over inductive integers takes about 50 us per byte
 
 
 def verify_write(ctx, case, seq, ret, data, sigflag, s2):
@@ -180,6 +181,9 @@ def flush(ctx, pend):
         lines.append('sig.clean ' + (body.hex() or '-'))
         if h:
             lines.append('sig.sign %s %s' % (h.encode().hex(), body.hex() or '-'))
+            if len(body) <= MD5_MODEL_MAX:
+                # the model's own MD5 (Model/Md5.v) over the hashed content: must be the Hash the implementation wrote
+                lines.append('sig.md5 ' + (body.hex() or '-'))
     outs = ctx.model(lines)
     i = 0
     for case, data, h in pend:
@@ -197,6 +201,19 @@ def flush(ctx, pend):
         want = '1 %d %s %s' % (pos, b'md5'.hex(), h.encode().hex())
         if sp != want:
             ctx.mismatch('split', case, {'model': sp[:120], 'impl': want[:120]})
+        if len(data[:pos]) <= MD5_MODEL_MAX:
+            md = outs[i]
+            i += 1
+            ctx.count('md5.model_digests')
+            try:
+                md_txt = bytes.fromhex(md).decode()
+            except ValueError:
+                md_txt = md[:80]
+            if md_txt != h:
+                ctx.mismatch('md5', case, {'what': 'MD5 of the model (Model/Md5.v) over the bytes before the section differs from '
+                                                   'the Hash the implementation wrote', 'model': md_txt, 'impl': h, 'bytes': pos})
+        else:
+            ctx.count('md5.skipped_large')
         if sg != data.hex():
             ctx.mismatch('sign', case, {'what': 'model sign(hash, body) differs from the file bytes',
                                         'first_diff': next((k for k in range(min(len(sg), len(data.hex()))) if sg[k] != data.hex()[k]), -1) // 2})
